@@ -231,3 +231,17 @@ def run(ctx):
     ctx.add("R12.4", "C12/R12.4/public-api", not extra,
             f"unreviewed public inherent method(s) on SealedToken: {extra}" if extra else "", facts={"public": sorted(pubs)})
     ctx.sample({"public_api": sorted(pubs), "payloaderror_sites": sorted(map(str, sites))})
+
+# ---- R12.9 (shared with C17 R17.4 / C16 R16.3): no static or thread-local state in the library crates — a key-derived value
+# cannot be cached across calls, so the key that verifies is the key that was passed.
+# ---- R12.10 (shared with C04 R04.1): a failing token yields an error: no undischarged panic site inside any backend unseal.
+_run_c12 = run
+def run(ctx):
+    _run_c12(ctx)
+    import shared
+    shared.share(ctx, "c17", lambda r, k: r == "R17.4", "R12.9", "C12/no-shared-state/")
+    n = shared.share(ctx, "c04", lambda r, k: r == "R04.1" and "UnsealingVersion<" in k and ">::unseal/" in k, "R12.10", "C12/unseal-no-panic/")
+    if n == 0:
+        ctx.add("R12.10", "C12/unseal-no-panic/none", False, "no panic-capable site found in any unseal function (anchor changed?)")
+FLOORS["R12.9"] = 8
+FLOORS["R12.10"] = 10
